@@ -24,7 +24,11 @@ use zverif::{Outcome, Registry, Tier};
 use zipora::algorithms::suffix_array::{
     EnhancedSuffixArray, LcpArray, SuffixArray, SuffixArrayAlgorithm, SuffixArrayBuilder, SuffixArrayConfig,
 };
-use zipora::compression::dict_zip::{SuffixArrayDictionary, SuffixArrayDictionaryConfig};
+use zipora::algorithms::Algorithm;
+use zipora::compression::dict_zip::{
+    ConcurrentSuffixArrayDictionary, DfaCache, DfaCacheConfig, MatcherConfig, PatternMatcher, PatternMatcherBuilder, SuffixArrayDictionary, SuffixArrayDictionaryConfig,
+};
+use std::sync::Arc;
 use zipora::compression::suffix_array::{SuffixArrayCompressor, SuffixArrayConfig as CompSaConfig};
 
 // ------------------------------------------------------------------------------------------------
@@ -90,6 +94,21 @@ enum TShape {
     Rev256,
     /// xorshift bytes (deterministic)
     Noise256,
+    // ---- coverage audit: alphabets between 5 and 255 symbols, texts with many distinct AND many equal LMS substrings
+    /// xorshift bytes folded to 16 symbols 0x41..0x50: > 256 distinct LMS substrings with repeats from n = 1000 on
+    Noise16,
+    /// xorshift bytes folded to the 5 symbols {01,41,61,FE,FF}
+    Noise5,
+    /// 8 symbols a..h in runs of 16 (repetition ratio 15/16: Adaptive -> Larsson-Sadakane)
+    Runs8,
+    /// abab.. with every 16th byte replaced by c, d, e in turn (5 symbols, entropy < 2, no runs: Adaptive -> DC3)
+    LowEnt5,
+    /// 1 + i mod 255 (255 symbols, no 0x00)
+    Cyc255From1,
+    /// 255 - i mod 255 (255 symbols, no 0x00)
+    Rev255To1,
+    /// 1 + xorshift byte mod 255 (255 symbols, no 0x00)
+    Noise255From1,
 }
 
 const ALL_TSHAPES: &[TShape] = &[
@@ -103,7 +122,25 @@ const ALL_TSHAPES: &[TShape] = &[
     TShape::Cyc256,
     TShape::Rev256,
     TShape::Noise256,
+    TShape::Noise16,
+    TShape::Noise5,
+    TShape::Runs8,
+    TShape::LowEnt5,
+    TShape::Cyc255From1,
+    TShape::Rev255To1,
+    TShape::Noise255From1,
 ];
+
+/// the xorshift byte stream of `Noise256` (seeded by the length)
+fn noise(n: usize) -> impl Iterator<Item = u8> {
+    let mut x: u64 = 0x9E37_79B9_7F4A_7C15 ^ ((n as u64) << 17);
+    (0..n).map(move |_| {
+        x ^= x << 13;
+        x ^= x >> 7;
+        x ^= x << 17;
+        (x >> 24) as u8
+    })
+}
 
 fn shaped_text(shape: TShape, n: usize) -> Vec<u8> {
     match shape {
@@ -126,17 +163,14 @@ fn shaped_text(shape: TShape, n: usize) -> Vec<u8> {
         TShape::ThueMorse00FF => (0..n).map(|i| if (i as u64).count_ones() % 2 == 0 { 0x00 } else { 0xFF }).collect(),
         TShape::Cyc256 => (0..n).map(|i| (i % 256) as u8).collect(),
         TShape::Rev256 => (0..n).map(|i| 255 - (i % 256) as u8).collect(),
-        TShape::Noise256 => {
-            let mut x: u64 = 0x9E37_79B9_7F4A_7C15 ^ ((n as u64) << 17);
-            (0..n)
-                .map(|_| {
-                    x ^= x << 13;
-                    x ^= x >> 7;
-                    x ^= x << 17;
-                    (x >> 24) as u8
-                })
-                .collect()
-        }
+        TShape::Noise256 => noise(n).collect(),
+        TShape::Noise16 => noise(n).map(|b| 0x41 + (b & 15)).collect(),
+        TShape::Noise5 => noise(n).map(|b| [0x01, 0x41, 0x61, 0xFE, 0xFF][(b % 5) as usize]).collect(),
+        TShape::Runs8 => (0..n).map(|i| b'a' + ((i / 16) % 8) as u8).collect(),
+        TShape::LowEnt5 => (0..n).map(|i| if i % 16 == 15 { b"cde"[(i / 16) % 3] } else if i % 2 == 0 { b'a' } else { b'b' }).collect(),
+        TShape::Cyc255From1 => (0..n).map(|i| 1 + (i % 255) as u8).collect(),
+        TShape::Rev255To1 => (0..n).map(|i| 255 - (i % 255) as u8).collect(),
+        TShape::Noise255From1 => noise(n).map(|b| 1 + b % 255).collect(),
     }
 }
 
@@ -152,9 +186,12 @@ const ALPHABETS: &[&[u8]] = &[
     &[0x61, 0x62],
     &[0x01, 0x61, 0xFF],
     &[0x01, 0x61, 0x62, 0xFF],
+    // coverage audit: five symbols with adjacent byte values at both ends of the byte range (id 9 plain, id 10 sentinel-free)
+    &[0x00, 0x01, 0x61, 0xFE, 0xFF],
+    &[0x01, 0x02, 0x61, 0xFE, 0xFF],
 ];
 /// one byte that never occurs in texts over the alphabet
-const FOREIGN: &[u8] = &[0x7A, 0x62, 0x63, 0x62, 0x63, 0x62, 0x63, 0x62, 0x63];
+const FOREIGN: &[u8] = &[0x7A, 0x62, 0x63, 0x62, 0x63, 0x62, 0x63, 0x62, 0x63, 0x62, 0x62];
 
 #[derive(Clone, Debug, PartialEq, Eq, Hash, Serialize, Deserialize)]
 enum Text {
@@ -196,6 +233,9 @@ impl Text {
 
 const S_LENS_QUICK: [usize; 5] = [0, 16, 13, 9, 7];
 const S_LENS_THOROUGH: [usize; 5] = [0, 20, 15, 10, 8];
+/// length bound of the five-symbol alphabet (ids 9 / 10)
+const S5_LEN_QUICK: usize = 5;
+const S5_LEN_THOROUGH: usize = 7;
 const G_LENS: &[usize] = &[1, 2, 3, 63, 64, 65, 255, 256, 257, 1000, 4097];
 
 /// S ∪ G.  `shift` selects the plain (0) or the sentinel-terminated (4) alphabet family; `s_cut` shortens the
@@ -217,6 +257,21 @@ fn texts(tier: Tier, shift: u8, s_cut: usize, max_n: usize, f: &mut dyn FnMut(Te
                 return true;
             }
             f(Text::Seq { alpha: (k as u8) + shift, hex: hex(s) })
+        });
+        if !ok {
+            return false;
+        }
+    }
+    // five-symbol alphabet: only texts that use one of its two new symbols (the others are texts over alphabet 3 resp. 7)
+    {
+        let id = if shift == 0 { 9u8 } else { 10u8 };
+        let new: [u8; 2] = if shift == 0 { [0x01, 0xFE] } else { [0x02, 0xFE] };
+        let max_len = tier.pick(S5_LEN_QUICK, S5_LEN_THOROUGH).saturating_sub(s_cut);
+        let ok = all_strings(ALPHABETS[id as usize], max_len, &mut |s| {
+            if !s.iter().any(|b| new.contains(b)) {
+                return true;
+            }
+            f(Text::Seq { alpha: id, hex: hex(s) })
         });
         if !ok {
             return false;
@@ -246,10 +301,11 @@ fn uses_new_symbol(s: &[u8], k: usize, shift: u8) -> bool {
     }
 }
 
-const TEXT_SPACE: &str = "S = all strings over {61}, {61,62}, {00,61,FF}, {00,61,62,FF} up to length 16,13,9,7 (quick) / 20,15,10,8 (thorough), each text once; \
-G = {(ab)^n, a^n b, b a^n, a^n, Fibonacci word, Thue-Morse over {a,b} and over {00,FF}, i mod 256, 255 - i mod 256, xorshift bytes} x lengths {1,2,3,63,64,65,255,256,257,1000} (+4097 thorough)";
+const TEXT_SPACE: &str = "S = all strings over {61}, {61,62}, {00,61,FF}, {00,61,62,FF}, {00,01,61,FE,FF} up to length 16,13,9,7,5 (quick) / 20,15,10,8,7 (thorough), each text once; \
+G = {(ab)^n, a^n b, b a^n, a^n, Fibonacci word, Thue-Morse over {a,b} and over {00,FF}, i mod 256, 255 - i mod 256, xorshift bytes, xorshift bytes folded to 16 and to 5 symbols, 8 symbols in runs of 16, \
+abab.. with every 16th byte c/d/e, 1 + i mod 255, 255 - i mod 255, 1 + xorshift mod 255} x lengths {1,2,3,63,64,65,255,256,257,1000} (+4097 thorough)";
 
-const PATTERN_SPACE: &str = "patterns per text: every string of length <= 3 over the text alphabet plus one foreign byte (alphabets > 5 symbols: all 256 single bytes, the 2- and 3-grams at text positions 0..32 and the same with the last byte replaced), plus every suffix and every suffix + foreign byte (n <= 257: all suffixes; n <= 1000: every ceil(n/64)-th and the last 64; longer: every ceil(n/16)-th and the last 32)";
+const PATTERN_SPACE: &str = "patterns per text: every string of length <= 3 over the text alphabet plus one foreign byte (5..7 text symbols: length <= 2 and the 3-grams at text positions 0..32 with their last byte replaced; more symbols: all 256 single bytes, the 2- and 3-grams at text positions 0..32 and the same with the last byte replaced), plus every suffix, every suffix + foreign byte, every suffix (>= 3 bytes) + the smallest absent byte, every prefix of length >= 4 and the same with its last byte replaced by the next alphabet symbol (n <= 257: all suffix starts / prefix ends; n <= 1000: every ceil(n/64)-th and the last 64; longer: every ceil(n/16)-th and the last 32), the middle third of the text and a near miss of it, and one pattern longer than the text";
 
 fn grid_max(tier: Tier) -> usize {
     tier.pick(1000, 4097)
@@ -350,18 +406,12 @@ fn patterns(t: &[u8], alpha: &[u8], foreign: u8) -> Vec<Vec<u8>> {
     if !sym.contains(&foreign) {
         sym.push(foreign);
     }
-    if sym.len() <= 5 {
-        all_strings(&sym, 3, &mut |s| {
-            out.push(s.to_vec());
-            true
-        });
-    } else {
-        out.push(Vec::new());
-        for b in 0..=255u8 {
-            out.push(vec![b]);
-        }
+    // a second absent byte, the smallest one (the first foreign byte lies above or inside the alphabet): deep mismatches in
+    // both directions.  None if every byte occurs.
+    let low: Option<u8> = (0..=255u8).find(|b| !sym.contains(b));
+    let grams = |out: &mut Vec<Vec<u8>>, from: usize| {
         for i in 0..n.min(32) {
-            for l in 2..=3 {
+            for l in from..=3 {
                 if i + l <= n {
                     out.push(t[i..i + l].to_vec());
                     let mut q = t[i..i + l].to_vec();
@@ -370,6 +420,25 @@ fn patterns(t: &[u8], alpha: &[u8], foreign: u8) -> Vec<Vec<u8>> {
                 }
             }
         }
+    };
+    if sym.len() <= 5 {
+        all_strings(&sym, 3, &mut |s| {
+            out.push(s.to_vec());
+            true
+        });
+    } else if sym.len() <= 8 {
+        // 5..7 text symbols: every string of length <= 2, and the 3-grams of the text
+        all_strings(&sym, 2, &mut |s| {
+            out.push(s.to_vec());
+            true
+        });
+        grams(&mut out, 3);
+    } else {
+        out.push(Vec::new());
+        for b in 0..=255u8 {
+            out.push(vec![b]);
+        }
+        grams(&mut out, 2);
     }
     let starts: Vec<usize> = if n <= 257 {
         (0..n).collect()
@@ -381,10 +450,40 @@ fn patterns(t: &[u8], alpha: &[u8], foreign: u8) -> Vec<Vec<u8>> {
         v.dedup();
         v
     };
-    for j in starts {
+    for &j in &starts {
         out.push(t[j..].to_vec());
         let mut q = t[j..].to_vec();
         q.push(foreign);
+        out.push(q);
+        // (coverage audit) the same suffix followed by a byte smaller than every text byte it could be followed by
+        if let Some(low) = low {
+            if n - j >= 3 {
+                let mut q = t[j..].to_vec();
+                q.push(low);
+                out.push(q);
+            }
+        }
+    }
+    // (coverage audit) prefixes of the text of length >= 4 (shorter ones are in the exhaustive part): present patterns that
+    // end inside the text, and the same with the last byte replaced by the next alphabet symbol (a mismatch at depth >= 3
+    // against an in-alphabet byte; present or absent, the naive scan decides)
+    for &j in &starts {
+        let k = n - j; // prefix length
+        if k < 4 {
+            continue;
+        }
+        out.push(t[..k].to_vec());
+        let mut q = t[..k].to_vec();
+        let at = alpha.iter().position(|&b| b == q[k - 1]).unwrap_or(0);
+        q[k - 1] = alpha[(at + 1) % alpha.len()];
+        out.push(q);
+    }
+    // the middle third of the text and a near miss of it
+    if n >= 12 {
+        let (a, b) = (n / 3, n - n / 3);
+        out.push(t[a..b].to_vec());
+        let mut q = t[a..b].to_vec();
+        q[b - a - 1] = foreign;
         out.push(q);
     }
     // a pattern longer than the whole text
@@ -447,10 +546,27 @@ enum Entry {
     EnhancedBwt,
     /// compression::suffix_array::SuffixArrayCompressor::build_suffix_array on text + 0x00 sentinel.
     /// preset: 0 = default, 1 = for_dictionary_compression (with LCP), 2 = for_realtime (no pool)
+    /// (coverage audit) 3 = for_large_text, 4 = SuffixArrayCompressor::default() called through Algorithm::execute;
+    /// presets 3 and 4 also build a second, shorter array with the same compressor while the first one is alive
     Compressor { preset: u8 },
     /// compression::dict_zip::SuffixArrayDictionary built over the text (min_pattern_length 1, min_frequency 1).
     /// sa: the suffix_array_config algorithm (Adaptive = the default)
     Dictionary { sa: Alg },
+    // ---- coverage audit: the remaining entry points
+    /// which: 0 = SuffixArray::new(text) (the library default configuration: Adaptive, use_parallel, parallel_threshold 100_000);
+    /// 1 = SuffixArray::with_config(text, cfg(alg)); 2 = <SuffixArrayBuilder as Algorithm>::execute(&cfg(alg), text) on a builder
+    /// that was constructed with a different configuration
+    Ctor { alg: Alg, which: u8 },
+    /// one SuffixArrayBuilder object builds five texts in a row (a 67-byte Thue-Morse word, the case text, its first half, the
+    /// text doubled, the text again); the first array is searched after the last build
+    BuilderReuse { alg: Alg },
+    /// compression::dict_zip::PatternMatcher over a (correct) suffix array of the text.  cfg: 0 = with_config(min 1, max MAX,
+    /// unlimited comparisons); 1 = PatternMatcher::new(sa, text, 2, 8); 2 = PatternMatcherBuilder defaults (4..=256, 100 comparisons);
+    /// 3 = the matcher's DFA cache (DfaCache::build_from_suffix_array + find_longest_prefix) instead of the matcher
+    Matcher { cfg: u8 },
+    /// SuffixArrayDictionary with the library default configuration (min_pattern_length 4, max 256, min_frequency 4, memory pool)
+    /// wrapped in ConcurrentSuffixArrayDictionary for the longest-match query
+    DictionaryDefault { sa: Alg },
 }
 
 #[derive(Clone, Debug, Hash, Serialize, Deserialize)]
@@ -541,6 +657,12 @@ fn run_builder(text: &Text, alg: Alg, variant: u8) -> Outcome {
             return enumr::fail("suffix_array", "suffix_at_rank", format!("suffix_at_rank({r}) = {:?}, as_slice()[{r}] = {:?}", sa.suffix_at_rank(r), exp));
         }
     }
+    // (coverage audit) every rank, not four of them
+    if n <= 4097 {
+        if let Some(r) = (0..n).find(|&r| sa.suffix_at_rank(r) != Some(sa.as_slice()[r])) {
+            return enumr::fail("suffix_array", "suffix_at_rank", format!("suffix_at_rank({r}) = {:?}, as_slice()[{r}] = {}", sa.suffix_at_rank(r), sa.as_slice()[r]));
+        }
+    }
     // LCP (Kasai) over this suffix array
     match LcpArray::new(&t, &sa) {
         Err(e) => return enumr::fail("lcp", "lcp_err", format!("LcpArray::new returned Err({e}) for text {}", brief(&t))),
@@ -551,6 +673,11 @@ fn run_builder(text: &Text, alg: Alg, variant: u8) -> Outcome {
             if n > 0 && (l.lcp_at(n - 1) != Some(l.as_slice()[n - 1]) || l.lcp_at(n).is_some()) {
                 return enumr::fail("lcp", "lcp_at", format!("lcp_at({}) = {:?}, lcp_at({n}) = {:?}", n - 1, l.lcp_at(n - 1), l.lcp_at(n)));
             }
+            if n <= 4097 {
+                if let Some(r) = (0..n).find(|&r| l.lcp_at(r) != Some(l.as_slice()[r])) {
+                    return enumr::fail("lcp", "lcp_at", format!("lcp_at({r}) = {:?}, as_slice()[{r}] = {}", l.lcp_at(r), l.as_slice()[r]));
+                }
+            }
         }
     }
     let with_search = variant == 0 || variant == 3;
@@ -559,7 +686,9 @@ fn run_builder(text: &Text, alg: Alg, variant: u8) -> Outcome {
             return f;
         }
     }
-    done(format!("builder/{ralg}/v{variant}{}", if with_search { "+search" } else { "" }), &t)
+    // (evidence label only) what SA-IS had to do for a grid text: recursion levels and the size of the recursion alphabet
+    let profile = if ralg == "SAIS" && matches!(text, Text::Grid { .. }) { lms_profile(&t) } else { String::new() };
+    done(format!("builder/{ralg}/v{variant}{}{profile}", if with_search { "+search" } else { "" }), &t)
 }
 
 fn run_enhanced(text: &Text, bwt: bool) -> Outcome {
@@ -599,7 +728,7 @@ fn run_enhanced(text: &Text, bwt: bool) -> Outcome {
 
 thread_local! {
     /// one compressor per preset (each owns a SecureMemoryPool)
-    static COMPRESSORS: [OnceCell<Option<SuffixArrayCompressor>>; 3] = const { [OnceCell::new(), OnceCell::new(), OnceCell::new()] };
+    static COMPRESSORS: [OnceCell<Option<SuffixArrayCompressor>>; 5] = const { [OnceCell::new(), OnceCell::new(), OnceCell::new(), OnceCell::new(), OnceCell::new()] };
 }
 
 fn run_compressor(text: &Text, preset: u8) -> Outcome {
@@ -616,10 +745,12 @@ fn run_compressor(text: &Text, preset: u8) -> Outcome {
     alpha.insert(0, 0);
     let _ = ptext;
     COMPRESSORS.with(|cs| {
-        let comp = cs[preset.min(2) as usize].get_or_init(|| {
+        let comp = cs[preset.min(4) as usize].get_or_init(|| {
             let cfg = match preset {
                 1 => CompSaConfig::for_dictionary_compression(),
                 2 => CompSaConfig::for_realtime(),
+                3 => CompSaConfig::for_large_text(),
+                4 => return Some(SuffixArrayCompressor::default()),
                 _ => CompSaConfig::default(),
             };
             SuffixArrayCompressor::new(cfg).ok()
@@ -627,9 +758,28 @@ fn run_compressor(text: &Text, preset: u8) -> Outcome {
         let Some(comp) = comp else {
             return Outcome::skip("SuffixArrayCompressor::new returned Err");
         };
-        let esa = match comp.build_suffix_array(&t) {
+        let built = if preset == 4 { Algorithm::execute(comp, &CompSaConfig::default(), t.clone()) } else { comp.build_suffix_array(&t) };
+        let esa = match built {
             Ok(e) => e,
             Err(e) => return sa_fail("SAIS", &t, "build_err", format!("build_suffix_array returned Err({e}) for text {}", brief(&t))),
+        };
+        // presets 3, 4: the same compressor builds a second, shorter array while the first one is alive; the first one is
+        // judged afterwards
+        let _second = if preset >= 3 && n >= 2 {
+            let mut h = t[..(n - 1) / 2].to_vec();
+            h.push(0);
+            match comp.build_suffix_array(&h) {
+                Ok(e2) => {
+                    let sa2: Vec<usize> = (0..e2.len()).map(|r| e2.suffix_at_rank(r).unwrap_or(usize::MAX)).collect();
+                    if let Some((sym, detail)) = judge_sa(&h, &sa2) {
+                        return sa_fail("SAIS", &h, sym, format!("(second build of one compressor) {detail}"));
+                    }
+                    Some(e2)
+                }
+                Err(e) => return sa_fail("SAIS", &h, "build_err", format!("second build_suffix_array of one compressor returned Err({e}) for text {}", brief(&h))),
+            }
+        } else {
+            None
         };
         let sa: Vec<usize> = (0..esa.len()).map(|r| esa.suffix_at_rank(r).unwrap_or(usize::MAX)).collect();
         if let Some((sym, detail)) = judge_sa(&t, &sa) {
@@ -721,10 +871,8 @@ fn run_dictionary(text: &Text, alg: Alg) -> Outcome {
             }
         }
         // longest prefix of p that occurs in the text, and how often it occurs
-        let mut depth = 0;
-        while depth < p.len() && !naive_occurrences(&t, &p[..depth + 1]).is_empty() {
-            depth += 1;
-        }
+        // ("p[..k] occurs" is monotone in k: binary search instead of the former linear scan, same value)
+        let depth = longest_prefix_depth(&t, &p, usize::MAX);
         let focc = naive_occurrences(&t, &p[..depth]);
         for (which, st) in [("dict_sa_match", dict.sa_match_continuation(0, n, 0, &p)), ("dict_da_match", dict.da_match_max_length(&p))] {
             if st.depth != depth || st.match_count() != focc.len() || st.hi > n {
@@ -752,8 +900,426 @@ fn run_dictionary(text: &Text, alg: Alg) -> Outcome {
                 }
             }
         }
+        // ---- coverage audit: the same queries through their other parameters
+        // (a) the longest match of p when p starts at position 1 of the input
+        {
+            let mut input = vec![foreign];
+            input.extend_from_slice(&p);
+            match dict.find_longest_match(&input, 1, usize::MAX) {
+                Err(e) => return enumr::fail("search", "dict_longest_err", format!("find_longest_match(position 1) returned Err({e})")),
+                Ok(m) => {
+                    let ok = match &m {
+                        None => depth == 0,
+                        Some(m) => depth > 0 && m.length == depth && m.input_position == 1 && focc.contains(&m.dict_position),
+                    };
+                    if !ok {
+                        return enumr::fail("search", format!("dict_longest_at_position/{pc}"), format!("text {} input {} position 1: find_longest_match = {:?}; longest matching prefix has length {depth} at {:?}", brief(&t), brief(&input), m.map(|m| (m.dict_position, m.length, m.input_position)), &focc[..focc.len().min(8)]));
+                    }
+                }
+            }
+        }
+        // (b) a bounded number of matches: that many distinct real occurrences
+        match dict.find_all_matches(&p, 1) {
+            Err(e) => return enumr::fail("search", "dict_find_all_err", format!("find_all_matches(.., 1) returned Err({e})")),
+            Ok(ms) => {
+                if ms.len() != occ.len().min(1) || ms.iter().any(|m| !occ.contains(&m.dict_position)) {
+                    return enumr::fail("search", format!("dict_find_all_limited/{pc}"), format!("text {} pattern {} max_matches 1: {:?}, occurrences are {:?}", brief(&t), brief(&p), ms.iter().map(|m| m.dict_position).collect::<Vec<_>>(), &occ[..occ.len().min(8)]));
+                }
+            }
+        }
+        // (c) a match continued from the state reached after the first byte / after the whole matching prefix
+        let full = dict.sa_match_continuation(0, n, 0, &p);
+        for cut in [1usize, depth] {
+            if cut == 0 || cut > depth {
+                continue;
+            }
+            let st = dict.sa_match_continuation(0, n, 0, &p[..cut]);
+            let cont = dict.sa_match_continuation(st.lo, st.hi, st.depth, &p);
+            if st.depth != cut || cont != full {
+                return enumr::fail("search", format!("dict_sa_match_continued/{pc}"), format!("text {} input {}: from scratch [{},{}) depth {}; after {cut} bytes [{},{}) depth {}, continued [{},{}) depth {}", brief(&t), brief(&p), full.lo, full.hi, full.depth, st.lo, st.hi, st.depth, cont.lo, cont.hi, cont.depth));
+            }
+        }
+        // (d) sa_equal_range on the range of the matching prefix: the ranks whose suffix continues with byte ch
+        if p.len() <= 3 || depth == p.len() {
+            let mut probes: Vec<u8> = alpha.iter().copied().take(3).collect();
+            probes.extend(alpha.last().copied());
+            probes.push(foreign);
+            probes.extend(p.get(depth).copied());
+            probes.sort();
+            probes.dedup();
+            for ch in probes {
+                let mut q = p[..depth].to_vec();
+                q.push(ch);
+                let qocc = naive_occurrences(&t, &q);
+                let (lo, hi) = dict.sa_equal_range(full.lo, full.hi, depth, ch);
+                let mut got: Vec<usize> = if lo < hi && hi <= n { sa[lo..hi].to_vec() } else { Vec::new() };
+                got.sort();
+                if hi > n || got != qocc {
+                    return enumr::fail("search", format!("dict_sa_equal_range/{}", pattern_class(&t, &q, qocc.len())), format!("text {} prefix {} byte {ch:#04x}: sa_equal_range([{},{}), {depth}) = [{lo},{hi}) holding {:?}; occurrences of the extended prefix are {:?}", brief(&t), brief(&p[..depth]), full.lo, full.hi, &got[..got.len().min(8)], &qocc[..qocc.len().min(8)]));
+                }
+            }
+        }
+    }
+    // degenerate inputs: the empty input and positions at / past the end of the input have no match
+    for (input, position) in [(&b""[..], 0usize), (&t[..], n), (&t[..], n + 1)] {
+        match dict.find_longest_match(input, position, usize::MAX) {
+            Ok(None) => {}
+            other => return enumr::fail("search", "dict_longest_degenerate", format!("find_longest_match(input of {} bytes, position {position}) = {:?}, expected no match", input.len(), other.map(|m| m.map(|m| (m.dict_position, m.length))))),
+        }
+    }
+    let st = dict.da_match_max_length(b"");
+    if st.depth != 0 || st.match_count() != 0 {
+        return enumr::fail("search", "dict_longest_degenerate", format!("da_match_max_length(empty input) = [{},{}) depth {}", st.lo, st.hi, st.depth));
+    }
+    if dict.dictionary_text() != &t[..] || dict.dictionary_size() != n {
+        return enumr::fail("search", "dict_text", format!("dictionary_text()/dictionary_size() do not agree with the {n} training bytes"));
     }
     done(format!("dictionary/{ralg}"), &t)
+}
+
+
+// ------------------------------------------------------------------------------------------------
+// coverage audit: further entry points
+
+/// Harness-side description of the work SA-IS has for a text -- an evidence label only, never part of an oracle:
+/// how many levels recurse (a level recurses when two LMS substrings are equal) and the largest number of distinct
+/// LMS-substring names (= alphabet size of the next level) among the levels that recurse.
+fn lms_profile(t: &[u8]) -> String {
+    let mut cur: Vec<usize> = t.iter().map(|&b| b as usize).collect();
+    let (mut depth, mut max_names) = (0usize, 0usize);
+    loop {
+        let n = cur.len();
+        if n < 2 {
+            break;
+        }
+        let mut is_s = vec![false; n];
+        for i in (0..n - 1).rev() {
+            is_s[i] = cur[i] < cur[i + 1] || (cur[i] == cur[i + 1] && is_s[i + 1]);
+        }
+        let lms: Vec<usize> = (1..n).filter(|&i| is_s[i] && !is_s[i - 1]).collect();
+        if lms.is_empty() {
+            break;
+        }
+        let last = lms.len() - 1;
+        // substring k runs to the next LMS position inclusive; the last one ends with the (virtual, smallest) sentinel
+        let key = |k: usize| (if k < last { &cur[lms[k]..=lms[k + 1]] } else { &cur[lms[k]..] }, k != last);
+        let mut idx: Vec<usize> = (0..lms.len()).collect();
+        idx.sort_by(|&a, &b| key(a).cmp(&key(b)));
+        let mut name = vec![0usize; lms.len()];
+        let mut names = 0usize;
+        for w in 0..idx.len() {
+            if w > 0 && key(idx[w - 1]) != key(idx[w]) {
+                names += 1;
+            }
+            name[idx[w]] = names;
+        }
+        names += 1;
+        if names == lms.len() {
+            break;
+        }
+        depth += 1;
+        max_names = max_names.max(names);
+        cur = name;
+    }
+    let d = if depth >= 3 { "3+".to_string() } else { depth.to_string() };
+    let a = if depth == 0 {
+        "-"
+    } else if max_names <= 256 {
+        "<=256"
+    } else if max_names <= 65536 {
+        "257..65536"
+    } else {
+        ">65536"
+    };
+    format!("/sais-levels:{d},names:{a}")
+}
+
+/// length of the longest prefix of `p` (at most `cap` bytes) that occurs in `t`; "occurs" is monotone in the prefix length
+fn longest_prefix_depth(t: &[u8], p: &[u8], cap: usize) -> usize {
+    let (mut lo, mut hi) = (0usize, p.len().min(cap).min(t.len()));
+    while lo < hi {
+        let mid = lo + (hi - lo + 1) / 2;
+        if (0..=t.len() - mid).any(|i| t[i..].starts_with(&p[..mid])) {
+            lo = mid;
+        } else {
+            hi = mid - 1;
+        }
+    }
+    lo
+}
+
+fn run_ctor(text: &Text, alg: Alg, which: u8) -> Outcome {
+    let t = text.bytes();
+    let cfg = if which == 0 { SuffixArrayConfig::default() } else { sa_config(alg, 0) };
+    let ralg = resolved(&cfg, &t);
+    let built = match which {
+        0 => SuffixArray::new(&t),
+        1 => SuffixArray::with_config(&t, &cfg),
+        _ => {
+            // `execute` documents "with the given configuration": the builder's own configuration is a different one
+            let other = if alg == Alg::DC3 { Alg::SAIS } else { Alg::DC3 };
+            let b = SuffixArrayBuilder::new(sa_config(other, 0));
+            Algorithm::execute(&b, &cfg, t.clone())
+        }
+    };
+    let sa = match built {
+        Ok(sa) => sa,
+        Err(e) => return sa_fail(&ralg, &t, "build_err", format!("constructor {which} returned Err({e}) for text {}", brief(&t))),
+    };
+    if let Some((sym, detail)) = judge_sa(&t, sa.as_slice()) {
+        return sa_fail(&ralg, &t, sym, detail);
+    }
+    if sa.text_len() != t.len() {
+        return enumr::fail("suffix_array", "text_len", format!("text_len() = {} for a text of {} bytes", sa.text_len(), t.len()));
+    }
+    if let Some(f) = judge_search(text, &t, &sa) {
+        return f;
+    }
+    done(format!("ctor{which}/{ralg}"), &t)
+}
+
+fn run_builder_reuse(text: &Text, alg: Alg) -> Outcome {
+    let t = text.bytes();
+    let n = t.len();
+    let cfg = sa_config(alg, 0);
+    let builder = SuffixArrayBuilder::new(cfg.clone());
+    let first = shaped_text(TShape::ThueMorse, 67);
+    let mut doubled = t.clone();
+    doubled.extend_from_slice(&t);
+    let seq: [(&str, &[u8]); 5] = [("first", &first), ("text", &t), ("half", &t[..n / 2]), ("doubled", &doubled), ("again", &t)];
+    let mut kept: Option<SuffixArray> = None;
+    for (step, (what, x)) in seq.iter().enumerate() {
+        let ralg = resolved(&cfg, x);
+        let sa = match builder.build(x) {
+            Ok(sa) => sa,
+            Err(e) => return sa_fail(&ralg, x, "build_err", format!("build #{step} ({what}) of a reused builder returned Err({e}) for text {}", brief(x))),
+        };
+        if let Some((sym, detail)) = judge_sa(x, sa.as_slice()) {
+            return sa_fail(&ralg, x, sym, format!("(build #{step}, {what}, of a reused builder) {detail}"));
+        }
+        if step == 0 {
+            kept = Some(sa);
+        }
+    }
+    // the first array is still the first text's array
+    if let Some(sa) = kept {
+        if let Some((sym, detail)) = judge_sa(&first, sa.as_slice()) {
+            return sa_fail(&resolved(&cfg, &first), &first, sym, format!("(first array re-read after four more builds) {detail}"));
+        }
+        for p in [&first[5..9], &first[60..], &b"abz"[..]] {
+            let occ = naive_occurrences(&first, p);
+            let (start, count) = sa.search(&first, p);
+            let mut got: Vec<usize> = sa.as_slice().get(start..start + count).map(|s| s.to_vec()).unwrap_or_default();
+            got.sort();
+            if got != occ {
+                return enumr::fail("search", "positions/reused_builder", format!("first text, pattern {}: ranks {start}..{} hold {:?}, occurrences are {:?}", brief(p), start + count, got, occ));
+            }
+        }
+    }
+    done(format!("builder-reuse/{}", resolved(&cfg, &t)), &t)
+}
+
+fn run_matcher(text: &Text, cfg: u8) -> Outcome {
+    let t = text.bytes();
+    let n = t.len();
+    // a comparison-sorted array: the matcher's stated input is a suffix array of the text
+    let sa = match SuffixArray::with_config(&t, &sa_config(Alg::DivSufSort, 0)) {
+        Ok(sa) => sa,
+        Err(e) => return sa_fail("DivSufSort", &t, "build_err", format!("with_config returned Err({e}) for text {}", brief(&t))),
+    };
+    if let Some((sym, detail)) = judge_sa(&t, sa.as_slice()) {
+        return sa_fail("DivSufSort", &t, sym, detail);
+    }
+    let sa = Arc::new(sa);
+    let txt = Arc::new(t.clone());
+    // (min length, max length, comparison budget per longest-match query)
+    let (min, max, budget) = match cfg {
+        0 => (1usize, usize::MAX, usize::MAX),
+        1 => (2, 8, 100),
+        _ => (4, 256, 100),
+    };
+    let mut m = match cfg {
+        0 => PatternMatcher::with_config(
+            Arc::clone(&sa),
+            Arc::clone(&txt),
+            MatcherConfig { min_match_length: 1, max_match_length: usize::MAX, max_sa_comparisons: usize::MAX, ..MatcherConfig::default() },
+        ),
+        1 => PatternMatcher::new(Arc::clone(&sa), Arc::clone(&txt), 2, 8),
+        _ => PatternMatcherBuilder::new().build(Arc::clone(&sa), Arc::clone(&txt)),
+    };
+    let (alpha, foreign) = text.alphabet(&t);
+    for p in patterns(&t, &alpha, foreign) {
+        if p.is_empty() {
+            continue;
+        }
+        let occ = naive_occurrences(&t, &p);
+        let pc = pattern_class(&t, &p, occ.len());
+        let in_limits = p.len() >= min && p.len() <= max;
+        for k in [usize::MAX, 1, 2] {
+            if k == 2 && p.len() > 4 {
+                continue;
+            }
+            let ms = match m.find_all_matches(&p, k) {
+                Ok(ms) => ms,
+                Err(e) => return enumr::fail("search", "matcher_find_all_err", format!("find_all_matches returned Err({e})")),
+            };
+            if !in_limits {
+                // outside the configured pattern lengths the matcher documents an empty answer
+                if !ms.is_empty() {
+                    return enumr::fail("search", format!("matcher_find_all_outside_limits/{pc}"), format!("text {} pattern {} (length limits {min}..={max}): {} matches", brief(&t), brief(&p), ms.len()));
+                }
+                continue;
+            }
+            let mut got: Vec<usize> = ms.iter().map(|x| x.dict_position).collect();
+            got.sort();
+            let distinct = got.windows(2).all(|w| w[0] != w[1]);
+            let all_real = got.iter().all(|g| occ.contains(g));
+            let complete = if k >= occ.len() { got == occ } else { got.len() == k };
+            if !distinct || !all_real || !complete || ms.iter().any(|x| x.length != p.len()) {
+                return enumr::fail(
+                    "search",
+                    format!("matcher_find_all{}/{pc}", if k == usize::MAX { "" } else { "_limited" }),
+                    format!("text {} pattern {} max_matches {k}: positions {:?}, occurrences are {:?}", brief(&t), brief(&p), &got[..got.len().min(8)], &occ[..occ.len().min(8)]),
+                );
+            }
+        }
+        // longest match of p (optionally behind one foreign byte, optionally with a length bound)
+        for (pos, max_length) in [(0usize, usize::MAX), (1, usize::MAX), (0, p.len() - 1), (0, 2)] {
+            if p.len() > 16 && (pos, max_length) != (0, usize::MAX) && (pos, max_length) != (0, p.len() - 1) {
+                continue;
+            }
+            let mut input = Vec::with_capacity(p.len() + 1);
+            if pos == 1 {
+                input.push(foreign);
+            }
+            input.extend_from_slice(&p);
+            let span = max_length.min(p.len()).min(max); // the lengths the query may consider: min..=span
+            let depth = longest_prefix_depth(&t, &p, span);
+            let expect_len = if span < min || depth < min { None } else { Some(depth) };
+            // the query tries lengths span, span-1, .. and gives up after `budget` of them: documented, not judged
+            if expect_len.is_some() && span - depth >= budget {
+                continue;
+            }
+            let got = match m.find_longest_match_suffix_array(&input, pos, max_length) {
+                Ok(g) => g,
+                Err(e) => return enumr::fail("search", "matcher_longest_err", format!("find_longest_match_suffix_array returned Err({e})")),
+            };
+            let ok = match (&got, expect_len) {
+                (None, None) => true,
+                (Some(g), Some(l)) => g.length == l && g.input_position == pos && g.dict_position + l <= n && t[g.dict_position..g.dict_position + l] == p[..l],
+                _ => false,
+            };
+            if !ok {
+                return enumr::fail(
+                    "search",
+                    format!("matcher_longest/{pc}"),
+                    format!("text {} input {} position {pos} max_length {max_length} (limits {min}..={max}): got {:?}; the longest prefix that occurs within the limits has length {depth}", brief(&t), brief(&input), got.map(|g| (g.dict_position, g.length, g.input_position))),
+                );
+            }
+        }
+    }
+    done(format!("matcher/cfg{cfg}"), &t)
+}
+
+/// The matcher's DFA cache (`DfaCache::build_from_suffix_array` with min_frequency 1, BFS depth 6) answers prefix queries with
+/// a dictionary position and a frequency: the position must be an occurrence of the reported prefix of the input, the
+/// frequency the number of its occurrences (= the size of its rank range).  Soundness only: which prefixes are cached is the
+/// cache's own business.
+fn run_dfa_cache(text: &Text) -> Outcome {
+    let t = text.bytes();
+    let n = t.len();
+    let sa = match SuffixArray::with_config(&t, &sa_config(Alg::DivSufSort, 0)) {
+        Ok(sa) => sa,
+        Err(e) => return sa_fail("DivSufSort", &t, "build_err", format!("with_config returned Err({e}) for text {}", brief(&t))),
+    };
+    if let Some((sym, detail)) = judge_sa(&t, sa.as_slice()) {
+        return sa_fail("DivSufSort", &t, sym, detail);
+    }
+    let mut cache = match DfaCache::build_from_suffix_array(&sa, &t, &DfaCacheConfig::default(), 1, 6) {
+        Ok(c) => c,
+        Err(e) => return Outcome::skip(&format!("cache refused: {}", zverif::core::truncate(&e.to_string(), 50))),
+    };
+    let (alpha, foreign) = text.alphabet(&t);
+    let (mut answers, mut wrong_freq) = (0usize, None);
+    for p in patterns(&t, &alpha, foreign) {
+        for max_length in [usize::MAX, 3] {
+            match cache.find_longest_prefix(&p, max_length) {
+                Err(e) => return enumr::fail("search", "dfa_cache_err", format!("find_longest_prefix returned Err({e})")),
+                Ok(None) => {}
+                Ok(Some(cm)) => {
+                    answers += 1;
+                    let l = cm.length;
+                    let real = l >= 1 && l <= p.len().min(max_length) && cm.dict_position + l <= n && t[cm.dict_position..cm.dict_position + l] == p[..l];
+                    if !real {
+                        return enumr::fail("search", "dfa_cache_position", format!("text {} input {} max_length {max_length}: cached prefix of length {l} at dictionary position {}, which is not an occurrence of that prefix", brief(&t), brief(&p), cm.dict_position));
+                    }
+                    let freq = naive_occurrences(&t, &p[..l]).len();
+                    if cm.frequency as usize != freq && wrong_freq.is_none() {
+                        wrong_freq = Some(format!("text {} input {} max_length {max_length}: cached prefix {} at {} reported with frequency {}; it occurs {freq} times", brief(&t), brief(&p), brief(&p[..l]), cm.dict_position, cm.frequency));
+                    }
+                }
+            }
+        }
+    }
+    // a wrong position is reported first (above); a wrong frequency once per text
+    if let Some(detail) = wrong_freq {
+        return enumr::fail("search", "dfa_cache_frequency", detail);
+    }
+    done(format!("dfa-cache/{}", if answers > 0 { "answers" } else { "no_cached_prefix" }), &t)
+}
+
+fn run_dictionary_default(text: &Text, alg: Alg) -> Outcome {
+    let t = text.bytes();
+    let n = t.len();
+    let sa_cfg = sa_config(alg, 0);
+    let ralg = resolved(&sa_cfg, &t);
+    let cfg = SuffixArrayDictionaryConfig { suffix_array_config: sa_cfg, ..SuffixArrayDictionaryConfig::default() };
+    let (min, max) = (cfg.min_pattern_length, cfg.max_pattern_length);
+    let dict = match SuffixArrayDictionary::new(&t, cfg.clone()) {
+        Ok(d) => d,
+        Err(e) => return Outcome::skip(&format!("dictionary refused: {}", zverif::core::truncate(&e.to_string(), 50))),
+    };
+    let conc = match ConcurrentSuffixArrayDictionary::new(&t, cfg) {
+        Ok(d) => d,
+        Err(e) => return Outcome::skip(&format!("dictionary refused: {}", zverif::core::truncate(&e.to_string(), 50))),
+    };
+    if dict.dictionary_text() != &t[..] || dict.dictionary_size() != n || dict.data() != &t[..] {
+        return enumr::fail("search", "dict_text", format!("dictionary_text()/data()/dictionary_size() do not give back the {n} training bytes"));
+    }
+    let (alpha, foreign) = text.alphabet(&t);
+    for p in patterns(&t, &alpha, foreign) {
+        if p.is_empty() {
+            continue;
+        }
+        let occ = naive_occurrences(&t, &p);
+        let pc = pattern_class(&t, &p, occ.len());
+        let ms = match dict.find_all_matches(&p, usize::MAX) {
+            Ok(ms) => ms,
+            Err(e) => return enumr::fail("search", "dict_find_all_err", format!("find_all_matches returned Err({e})")),
+        };
+        let mut got: Vec<usize> = ms.iter().map(|m| m.dict_position).collect();
+        got.sort();
+        // outside min..=max pattern length the dictionary documents an empty answer; inside, all and only the occurrences
+        let want: &[usize] = if p.len() >= min && p.len() <= max { &occ } else { &[] };
+        if got != want {
+            return enumr::fail("search", format!("dict_default_find_all/{pc}"), format!("text {} pattern {} (length limits {min}..={max}): positions {:?}, expected {:?} [{ralg}]", brief(&t), brief(&p), &got[..got.len().min(8)], &want[..want.len().min(8)]));
+        }
+        // longest match: None below the minimum length, otherwise the longest prefix of p that occurs
+        let depth = longest_prefix_depth(&t, &p, usize::MAX);
+        let lm = match conc.find_longest_match(&p, 0, usize::MAX) {
+            Ok(m) => m,
+            Err(e) => return enumr::fail("search", "dict_longest_err", format!("find_longest_match returned Err({e})")),
+        };
+        let ok = match &lm {
+            None => depth < min,
+            // (a prefix longer than max_pattern_length: the query does not apply the upper limit; any real occurrence passes)
+            Some(m) => depth >= min && (m.length == depth || (depth > max && m.length >= max && m.length <= depth)) && m.dict_position + m.length <= n && t[m.dict_position..m.dict_position + m.length] == p[..m.length],
+        };
+        if !ok {
+            return enumr::fail("search", format!("dict_default_longest/{pc}"), format!("text {} input {}: find_longest_match = {:?}; the longest prefix that occurs has length {depth} (minimum pattern length {min}) [{ralg}]", brief(&t), brief(&p), lm.map(|m| (m.dict_position, m.length))));
+        }
+    }
+    done(format!("dictionary-default/{ralg}"), &t)
 }
 
 fn run_case(c: &SaCase) -> Outcome {
@@ -763,6 +1329,11 @@ fn run_case(c: &SaCase) -> Outcome {
         Entry::EnhancedBwt => run_enhanced(&c.text, true),
         Entry::Compressor { preset } => run_compressor(&c.text, preset),
         Entry::Dictionary { sa } => run_dictionary(&c.text, sa),
+        Entry::Ctor { alg, which } => run_ctor(&c.text, alg, which),
+        Entry::BuilderReuse { alg } => run_builder_reuse(&c.text, alg),
+        Entry::Matcher { cfg: 3 } => run_dfa_cache(&c.text),
+        Entry::Matcher { cfg } => run_matcher(&c.text, cfg),
+        Entry::DictionaryDefault { sa } => run_dictionary_default(&c.text, sa),
     }
 }
 
@@ -770,14 +1341,53 @@ fn run_case(c: &SaCase) -> Outcome {
 // case generators
 
 fn cheap_long(shape: TShape) -> bool {
-    matches!(shape, TShape::Cyc256 | TShape::Rev256 | TShape::Noise256 | TShape::ThueMorse | TShape::ThueMorse00FF | TShape::Fib)
+    // the naive pattern scan is quadratic on texts whose suffixes share very long prefixes at most positions
+    !matches!(shape, TShape::AbRep | TShape::AnB | TShape::BAn | TShape::AllA)
 }
 
-/// one length beyond the default adaptive threshold (10_000), where the default configuration starts to analyse the
-/// text; quick: shapes with short common prefixes only
+/// lengths around the default adaptive threshold (10_000), where the default configuration starts to analyse the
+/// text; quick: 10_001 for the shapes with short common prefixes (+ 10_000 for one shape); thorough: 9_999, 10_000, 10_001 for all
 fn beyond_threshold(tier: Tier, entry: Entry, f: &mut dyn FnMut(SaCase) -> bool) -> bool {
     for &shape in ALL_TSHAPES {
         if (tier == Tier::Thorough || cheap_long(shape)) && !f(SaCase { text: Text::Grid { shape, n: 10_001 }, entry }) {
+            return false;
+        }
+    }
+    for n in [9_999u32, 10_000] {
+        for &shape in ALL_TSHAPES {
+            let wanted = match tier {
+                Tier::Thorough => true,
+                _ => n == 10_000 && shape == TShape::Noise16,
+            };
+            if wanted && !f(SaCase { text: Text::Grid { shape, n }, entry }) {
+                return false;
+            }
+        }
+    }
+    true
+}
+
+/// (coverage audit) long texts for the thresholds the grid does not reach: Adaptive's 50_000 (DivSufSort above it), the default
+/// parallel threshold 100_000, more than 65_536 distinct LMS names at a recursing SA-IS level
+fn long_texts(tier: Tier, alg: Alg, f: &mut dyn FnMut(SaCase) -> bool) -> bool {
+    let mut cases: Vec<(TShape, u32, u8)> = Vec::new();
+    match alg {
+        Alg::Adaptive => {
+            cases.extend([(TShape::Noise256, 50_000, 0), (TShape::Noise256, 50_001, 0)]);
+            if tier == Tier::Thorough {
+                cases.extend([(TShape::Noise16, 50_001, 0), (TShape::Runs8, 50_001, 0), (TShape::LowEnt5, 50_001, 0), (TShape::LowEnt5, 100_000, 0), (TShape::Noise5, 50_001, 0)]);
+            }
+        }
+        Alg::SAIS => {
+            cases.push((TShape::Noise16, 20_000, 0));
+            if tier == Tier::Thorough {
+                cases.extend([(TShape::Noise16, 65_537, 0), (TShape::Noise256, 262_145, 0), (TShape::Noise256, 262_145, 1), (TShape::Noise5, 100_001, 2)]);
+            }
+        }
+        _ => {}
+    }
+    for (shape, n, variant) in cases {
+        if !f(SaCase { text: Text::Grid { shape, n }, entry: Entry::Builder { alg, variant } }) {
             return false;
         }
     }
@@ -800,7 +1410,7 @@ fn builder_gen(alg: Alg) -> impl Fn(Tier, &mut dyn FnMut(SaCase) -> bool) -> boo
                 return false;
             }
         }
-        true
+        long_texts(tier, alg, f)
     }
 }
 
@@ -817,12 +1427,24 @@ fn enhanced_gen(tier: Tier, f: &mut dyn FnMut(SaCase) -> bool) -> bool {
 }
 
 fn compressor_gen(tier: Tier, f: &mut dyn FnMut(SaCase) -> bool) -> bool {
-    for preset in [0u8, 1, 2] {
+    for preset in [0u8, 1, 2, 3, 4] {
         let entry = Entry::Compressor { preset };
-        // texts over the sentinel-free alphabets (ids 5..8); grid texts containing 0x00 are skipped by `run`
-        if !texts(tier, 4, 0, grid_max(tier), &mut |text| f(SaCase { text, entry })) {
+        // texts over the sentinel-free alphabets (ids 5..8, 10); grid texts containing 0x00 are skipped by `run`
+        // (presets 3, 4 differ from 0 in thresholds and entry point only: small scope shortened by 3)
+        if !texts(tier, 4, if preset >= 3 { 3 } else { 0 }, grid_max(tier), &mut |text| f(SaCase { text, entry })) {
             return false;
         }
+    }
+    // (coverage audit) array lengths around 2^16 (width of the stored indices), the parallel thresholds 100_000 (default) and
+    // 50_000 (for_large_text); text length + 1 sentinel = array length
+    if tier == Tier::Thorough {
+        for (n, preset) in [(65_534u32, 0u8), (65_535, 0), (65_536, 0), (65_535, 1), (65_536, 1), (65_536, 3), (49_998, 3), (49_999, 3), (99_998, 0), (99_999, 4)] {
+            if !f(SaCase { text: Text::Grid { shape: TShape::Noise255From1, n }, entry: Entry::Compressor { preset } }) {
+                return false;
+            }
+        }
+    } else if !f(SaCase { text: Text::Grid { shape: TShape::Noise255From1, n: 65_536 }, entry: Entry::Compressor { preset: 1 } }) {
+        return false;
     }
     true
 }
@@ -838,6 +1460,55 @@ fn dictionary_gen(tier: Tier, f: &mut dyn FnMut(SaCase) -> bool) -> bool {
     true
 }
 
+fn ctor_gen(tier: Tier, f: &mut dyn FnMut(SaCase) -> bool) -> bool {
+    for (alg, which) in [(Alg::Adaptive, 0u8), (Alg::SAIS, 1), (Alg::LarssonSadakane, 1), (Alg::SAIS, 2), (Alg::DC3, 2)] {
+        let entry = Entry::Ctor { alg, which };
+        if !texts(tier, 0, tier.pick(3, 2), grid_max(tier), &mut |text| f(SaCase { text, entry })) {
+            return false;
+        }
+    }
+    // SuffixArray::new around its thresholds: adaptive 10_000, DivSufSort above 50_000, parallel build from 100_000
+    let lens: &[u32] = tier.pick(&[10_000, 50_001][..], &[9_999, 10_000, 10_001, 50_000, 50_001, 99_999, 100_000, 100_001][..]);
+    for &n in lens {
+        for shape in [TShape::Noise256, TShape::Noise16] {
+            if !f(SaCase { text: Text::Grid { shape, n }, entry: Entry::Ctor { alg: Alg::Adaptive, which: 0 } }) {
+                return false;
+            }
+        }
+    }
+    true
+}
+
+fn reuse_gen(tier: Tier, f: &mut dyn FnMut(SaCase) -> bool) -> bool {
+    for alg in [Alg::SAIS, Alg::DivSufSort, Alg::DC3, Alg::LarssonSadakane, Alg::Adaptive] {
+        let entry = Entry::BuilderReuse { alg };
+        if !texts(tier, 0, 3, 257, &mut |text| f(SaCase { text, entry })) {
+            return false;
+        }
+    }
+    true
+}
+
+fn matcher_gen(tier: Tier, f: &mut dyn FnMut(SaCase) -> bool) -> bool {
+    for cfg in [0u8, 1, 2, 3] {
+        let entry = Entry::Matcher { cfg };
+        if !texts(tier, 0, if cfg == 0 { tier.pick(3, 2) } else { 3 }, if cfg == 0 || cfg == 2 { 257 } else { 65 }, &mut |text| f(SaCase { text, entry })) {
+            return false;
+        }
+    }
+    true
+}
+
+fn dictionary_default_gen(tier: Tier, f: &mut dyn FnMut(SaCase) -> bool) -> bool {
+    for sa in [Alg::Adaptive, Alg::SAIS] {
+        let entry = Entry::DictionaryDefault { sa };
+        if !texts(tier, 0, 3, 257, &mut |text| f(SaCase { text, entry })) {
+            return false;
+        }
+    }
+    true
+}
+
 fn main() {
     zverif::main_with("C12", |reg, _tier| {
         // SA-IS first: findings with subject "SuffixArray/*" are replayed on the matching subjects in registration order, and every
@@ -846,13 +1517,18 @@ fn main() {
             add(
                 reg,
                 &format!("SuffixArray/Builder[{name}]"),
-                &format!("{TEXT_SPACE} x variant {{defaults; optimize_small_alphabet=false (SAIS); use_parallel with parallel_threshold 0; adaptive_threshold 0 / 8 (Adaptive; + length 10001 with the default threshold)}}; as_slice/suffix_at_rank/text_len, LcpArray::new over the built array, and search/search_range with {PATTERN_SPACE} (search: variants 0 and 3)"),
+                &format!("{TEXT_SPACE} x variant {{defaults; optimize_small_alphabet=false (SAIS); use_parallel with parallel_threshold 0; adaptive_threshold 0 / 8 (Adaptive; + length 10001 (thorough: 9999, 10000, 10001) with the default threshold; + xorshift texts of length 50000, 50001 (thorough: more shapes at 50001 / 100000)); SAIS + xorshift over 16 symbols at 20000 (thorough: 65537; xorshift over 256 symbols at 262145 = more than 65536 distinct LMS names at a recursing level)}}; as_slice/suffix_at_rank/text_len, LcpArray::new over the built array, and search/search_range with {PATTERN_SPACE} (search: variants 0 and 3)"),
                 builder_gen(alg),
                 run_case,
             );
         }
         add(reg, "SuffixArray/Enhanced{with_lcp,with_bwt}", &format!("{TEXT_SPACE} + length 10001 (beyond the default adaptive threshold); BWT convention: cyclic predecessor, no sentinel"), enhanced_gen, run_case);
-        add(reg, "SuffixArray/compression::SuffixArrayCompressor", &format!("texts = (text over {{61}}, {{61,62}}, {{01,61,FF}}, {{01,61,62,FF}} or a grid text without 0x00) + sentinel 0x00; same length bounds as: {TEXT_SPACE}; x preset {{default, for_dictionary_compression (LCP), for_realtime}}; suffix_at_rank, lcp_at, find_pattern / count_pattern / find_pattern_range with {PATTERN_SPACE}"), compressor_gen, run_case);
-        add(reg, "SuffixArray/dict_zip::SuffixArrayDictionary", &format!("small-scope lengths 2 shorter than: {TEXT_SPACE}; grid lengths <= 257; x suffix_array_config algorithm {{Adaptive (default), DivSufSort}}; the matcher's array observed through find_all_matches on single bytes; find_all_matches, sa_match_continuation, da_match_max_length, find_longest_match with {PATTERN_SPACE}"), dictionary_gen, run_case);
+        add(reg, "SuffixArray/compression::SuffixArrayCompressor", &format!("texts = (text over {{61}}, {{61,62}}, {{01,61,FF}}, {{01,61,62,FF}} or a grid text without 0x00) + sentinel 0x00; same length bounds as: {TEXT_SPACE}; x preset {{default, for_dictionary_compression (LCP), for_realtime, for_large_text, SuffixArrayCompressor::default() through Algorithm::execute (the last two: small scope 3 shorter, a second array built by the same compressor while the first is alive)}}; + xorshift texts over 255 symbols of length 65536 (thorough: 65534..65536, 49998, 49999, 99998, 99999: index width 2^16, parallel thresholds); suffix_at_rank, lcp_at, find_pattern / count_pattern / find_pattern_range with {PATTERN_SPACE}"), compressor_gen, run_case);
+        add(reg, "SuffixArray/dict_zip::SuffixArrayDictionary", &format!("small-scope lengths 2 shorter than: {TEXT_SPACE}; grid lengths <= 257; x suffix_array_config algorithm {{Adaptive (default), DivSufSort}}; the matcher's array observed through find_all_matches on single bytes; find_all_matches (unbounded and max_matches 1), sa_match_continuation (from the root and continued from an inner state), sa_equal_range, da_match_max_length, find_longest_match (position 0 and 1) with {PATTERN_SPACE}"), dictionary_gen, run_case);
+        // ---- coverage audit
+        add(reg, "SuffixArray/constructors{new,with_config,Algorithm::execute}", &format!("small-scope lengths 3 (quick) / 2 (thorough) shorter than: {TEXT_SPACE}; x {{SuffixArray::new; with_config(SAIS | LarssonSadakane); <SuffixArrayBuilder as Algorithm>::execute(cfg SAIS | DC3) on a builder constructed with another algorithm}}; SuffixArray::new also at lengths 10000, 50001 (thorough: 9999..10001, 50000, 50001, 99999..100001) of xorshift texts over 256 and 16 symbols; array + search/search_range with {PATTERN_SPACE}"), ctor_gen, run_case);
+        add(reg, "SuffixArray/Builder[one object, several texts]", &format!("small-scope lengths 3 shorter than: {TEXT_SPACE}; grid lengths <= 257; x algorithm {{SAIS, DivSufSort, DC3, LarssonSadakane, Adaptive}}; one SuffixArrayBuilder builds a 67-byte Thue-Morse word, the text, its first half, the text doubled, the text again; every array judged, the first array re-read and searched at the end"), reuse_gen, run_case);
+        add(reg, "SuffixArray/dict_zip::PatternMatcher", &format!("small-scope lengths 3 (first configuration, thorough: 2) / 3 shorter than: {TEXT_SPACE}; grid lengths <= 257 (first and third configuration) / 65; x matcher configuration {{with_config(lengths 1..MAX, unlimited comparisons); PatternMatcher::new(2..=8); PatternMatcherBuilder defaults (4..=256); instead of the matcher its DFA cache: DfaCache::build_from_suffix_array(min_frequency 1, depth 6) + find_longest_prefix with max_length MAX / 3, soundness only (the position is an occurrence of the reported prefix, the frequency is its number of occurrences)}}; find_all_matches with max_matches MAX / 1 / 2, find_longest_match_suffix_array at input position 0 / 1 and max_length MAX / |p|-1 / 2 (queries that exhaust the documented comparison budget are not judged) with {PATTERN_SPACE}"), matcher_gen, run_case);
+        add(reg, "SuffixArray/dict_zip::SuffixArrayDictionary[default config]", &format!("small-scope lengths 3 shorter than: {TEXT_SPACE}; grid lengths <= 257; SuffixArrayDictionaryConfig::default() (pattern lengths 4..=256, min_frequency 4, memory pool) x suffix_array_config algorithm {{Adaptive, SAIS}}; find_all_matches (empty outside the length limits, exact inside), ConcurrentSuffixArrayDictionary::find_longest_match with {PATTERN_SPACE}"), dictionary_default_gen, run_case);
     });
 }
